@@ -14,6 +14,7 @@ import VrlProofs.Lemmas.KindGetNeg
 import VrlProofs.Lemmas.KindRemove
 import VrlProofs.Lemmas.KindSupConv
 import VrlProofs.Lemmas.KindMerge
+import VrlProofs.Lemmas.KindCanon
 
 namespace C19
 open Spec
@@ -292,5 +293,41 @@ theorem merge_sound_partial (a b : Value) (A B : Kind) (sa : a.Sorted = true) (s
           rw [Spec.mem_obj_iff _ _ (VMap.mergeInto_sortedKeys mb ma hsa)]
           exact ⟨_, rfl, hs1, hs2⟩
   · rfl
+
+/-- **`canonicalize` preserves membership** (exactly: same members before and after) for key-sorted
+    kinds with `canonClass K = none`, i.e. without an `Exact` unknown that `Unknown::canonicalize`
+    turns into an `Infinite` one. Outside that class it provably loses members
+    (`W.witness_canon_loses_member`) and `k.canonicalize() == k` fails
+    (`W.witness_canon_exact_to_infinite`). -/
+theorem canonicalize_mem (v : Value) (K : Kind) (sK : K.SortedK = true)
+    (hc : canonClass K = .none) : mem v K.canonicalize = mem v K := by
+  have he : K.hasExactToInf = false := by
+    unfold canonClass at hc
+    split at hc
+    · cases hc
+    · rename_i h; simpa using h
+  exact Spec.kind_canon_mem _ (Spec.eqF_sound _) K ⟨he, sK⟩ v
+
+theorem canon_sound_partial (v : Value) (K : Kind) (sK : K.SortedK = true)
+    (hc : canonClass K = .none) : canonLawM v K = true := by
+  unfold canonLawM canonLaw
+  rw [canonicalize_mem v K sK hc]
+  cases mem v K <;> rfl
+
+/-- **`PartialEq for Kind` only identifies kinds with the same members** (same fragment). -/
+theorem eq_sound_partial (A B : Kind) (sA : A.SortedK = true) (sB : B.SortedK = true)
+    (hA : canonClass A = .none) (hB : canonClass B = .none) (h : A.eq B = true) (v : Value) :
+    mem v A = mem v B := by
+  have heA : A.hasExactToInf = false := by
+    unfold canonClass at hA
+    split at hA
+    · cases hA
+    · rename_i h; simpa using h
+  have heB : B.hasExactToInf = false := by
+    unfold canonClass at hB
+    split at hB
+    · cases hB
+    · rename_i h; simpa using h
+  exact (Spec.eqF_sound _).mem A B ⟨heA, sA⟩ ⟨heB, sB⟩ h v
 
 end C19
